@@ -288,6 +288,19 @@ func (e *Env) evalIdent(name string) Value {
 		if v, ok := e.x.params[name]; ok {
 			return v
 		}
+		if as := e.x.allocsByName[name]; len(as) > 0 && (e.atReturn || e.loop != nil) {
+			// a local that has not been allocated on this path: its value is unconstrained
+			el := as[0].Type().Underlying().(*types.Pointer).Elem()
+			e.x.ck.qctr++
+			leaves := flatten(el)
+			v := Value{T: el, L: make([]Term, len(leaves))}
+			for k, l := range leaves {
+				sym := quoteSym(fmt.Sprintf("unalloc:%s%s!%d", name, l.Path, e.x.ck.qctr))
+				e.x.pre.declare(sym, "(declare-fun "+sym+" () "+l.Sort+")")
+				v.L[k] = Term{sym, l.Sort}
+			}
+			return v
+		}
 	}
 	// package level
 	if e.pkg != nil {
@@ -585,6 +598,9 @@ func (e *Env) evalCall(n *ast.CallExpr) Value {
 		// conversion like time.Duration(x) or pkg-qualified spec function: treat as conversion when it names a type
 		if id, ok := f.X.(*ast.Ident); ok {
 			if p := e.importedPkg(id.Name); p != nil {
+				if v, ok := e.pureCall(p.Path(), f.Sel.Name, n.Args); ok {
+					return v
+				}
 				if tn, ok := p.Scope().Lookup(f.Sel.Name).(*types.TypeName); ok && len(n.Args) == 1 {
 					return e.convertTo(e.eval(n.Args[0]), tn.Type())
 				}
@@ -745,6 +761,11 @@ func (e *Env) evalCall(n *ast.CallExpr) Value {
 			return e.convertTo(e.eval(n.Args[0]), tn.Type())
 		}
 	}
+	if e.pkg != nil {
+		if v, ok := e.pureCall(e.pkg.Pkg.Path(), fname, n.Args); ok {
+			return v
+		}
+	}
 	// specification function
 	if sf := e.x.ck.specFuncs[fname]; sf != nil {
 		if sf.Macro {
@@ -831,7 +852,15 @@ func (e *Env) addrOf(ex ast.Expr) *Ptr {
 	case *ast.ParenExpr:
 		return e.addrOf(n.X)
 	case *ast.StarExpr:
-		return e.x.deref(e.eval(n.X))
+		v := e.eval(n.X)
+		if v.T != nil && isInterface(v.T) {
+			bv, ok := e.st.boxed[v.one().S]
+			if !ok || !isPointer(bv.T) {
+				panic("interface value does not hold a known pointer")
+			}
+			return e.x.deref(bv)
+		}
+		return e.x.deref(v)
 	case *ast.SelectorExpr:
 		base := e.eval(n.X)
 		var p *Ptr
@@ -902,4 +931,41 @@ func (e *Env) applyMacro(sf *SpecFunc, args []ast.Expr) Value {
 		return e.fail("macro %s: %v", sf.Name, err)
 	}
 	return inner.eval(ex)
+}
+
+// pureCall applies the uninterpreted function that stands for a callee declared `pure`.
+func (e *Env) pureCall(pkgPath, name string, args []ast.Expr) (Value, bool) {
+	full := fullName(pkgPath, name)
+	ctr := e.x.ck.contracts[full]
+	if ctr == nil {
+		ctr = e.x.ck.findExtern([]string{full})
+		if ctr != nil && strings.HasSuffix(ctr.Name, "*") {
+			ctr = nil
+		}
+	}
+	if ctr == nil || !ctr.Pure {
+		return Value{}, false
+	}
+	sp := e.x.ck.ssaPkgByPath(pkgPath)
+	if sp == nil {
+		return Value{}, false
+	}
+	fn, ok := sp.Members[name].(*ssa.Function)
+	if !ok {
+		return Value{}, false
+	}
+	var flat []Term
+	for _, a := range args {
+		flat = append(flat, e.eval(a).L...)
+	}
+	rt := fn.Signature.Results()
+	if rt.Len() != 1 {
+		return Value{}, false
+	}
+	leaves := flatten(rt.At(0).Type())
+	out := Value{T: rt.At(0).Type(), L: make([]Term, len(leaves))}
+	for k, lf := range leaves {
+		out.L[k] = e.x.uf(fmt.Sprintf("pure:%s:%d", full, k), lf.Sort, flat...)
+	}
+	return out, true
 }
